@@ -41,6 +41,30 @@ def _exc_only(info: frozenset) -> bool:
     return G_EXC in info or any(a.startswith("cls:") for a in info)
 
 
+def check_no_global_rng(ctx, rule: str) -> None:
+    """Nothing under events/ or the runners draws from (or seeds) the process-global ``random`` generator: it is shared
+    with node functions (observer-only code shifts what a seeded node sees; a node that re-seeds makes ids repeat)."""
+    db, rep = ctx.db, ctx.rep
+    # event ids, span ids and events are built only when processors are attached (or in different numbers then): a draw
+    # from the process-global `random` generator there shifts what a node function that uses seeded `random` sees next —
+    # the run's values then differ between 'with processors' and 'without'.  uuid4/os.urandom/secrets/time are not shared state.
+    GLOBAL_RNG = {"random", "randint", "randrange", "getrandbits", "choice", "choices", "shuffle", "sample", "uniform", "gauss", "seed", "randbytes", "betavariate", "expovariate", "normalvariate", "triangular"}
+    for f8 in db.funcs_in("events") + db.funcs_in("runners"):
+        bad8 = []
+        for c in db.calls_in(f8):
+            d8 = dotted(c.func) or ""
+            parts = d8.split(".")
+            if len(parts) == 2 and parts[0] == "random" and parts[1] in GLOBAL_RNG:
+                sym = db.resolve_name("random", f8.module, f8)
+                if sym is None or sym[0] != "class":
+                    bad8.append(c)
+            elif len(parts) == 1 and parts[0] in GLOBAL_RNG:
+                imp = f8.module.imports.get(parts[0]) if hasattr(f8.module, "imports") else None
+                if imp and str(imp).startswith("random"):
+                    bad8.append(c)
+        rep.add(rule, f"{f8.qname}:no-global-rng", not bad8, f"{f8.module.rel}:{bad8[0].lineno if bad8 else f8.lineno}", "does not touch the process-global random generator" if not bad8 else f"'{src(bad8[0])[:50]}' draws from the process-global random generator in code whose execution depends on whether processors are attached: a node reading seeded `random` afterwards computes a different value with observers than without")
+
+
 def run(ctx) -> None:
     db, rep = ctx.db, ctx.rep
     rep.rule("C13.R1", "processor calls are guarded: no Exception leaves a delivery function in non-strict mode; delivery continues with the next processor", floor=6)
@@ -149,24 +173,13 @@ def run(ctx) -> None:
 
 
     # ---- R8 ---------------------------------------------------------------------
-    # event ids, span ids and events are built only when processors are attached (or in different numbers then): a draw
-    # from the process-global `random` generator there shifts what a node function that uses seeded `random` sees next —
-    # the run's values then differ between 'with processors' and 'without'.  uuid4/os.urandom/secrets/time are not shared state.
-    GLOBAL_RNG = {"random", "randint", "randrange", "getrandbits", "choice", "choices", "shuffle", "sample", "uniform", "gauss", "seed", "randbytes", "betavariate", "expovariate", "normalvariate", "triangular"}
-    for f8 in db.funcs_in("events") + db.funcs_in("runners"):
-        bad8 = []
-        for c in db.calls_in(f8):
-            d8 = dotted(c.func) or ""
-            parts = d8.split(".")
-            if len(parts) == 2 and parts[0] == "random" and parts[1] in GLOBAL_RNG:
-                sym = db.resolve_name("random", f8.module, f8)
-                if sym is None or sym[0] != "class":
-                    bad8.append(c)
-            elif len(parts) == 1 and parts[0] in GLOBAL_RNG:
-                imp = f8.module.imports.get(parts[0]) if hasattr(f8.module, "imports") else None
-                if imp and str(imp).startswith("random"):
-                    bad8.append(c)
-        rep.add("C13.R8", f"{f8.qname}:no-global-rng", not bad8, f"{f8.module.rel}:{bad8[0].lineno if bad8 else f8.lineno}", "does not touch the process-global random generator" if not bad8 else f"'{src(bad8[0])[:50]}' draws from the process-global random generator in code whose execution depends on whether processors are attached: a node reading seeded `random` afterwards computes a different value with observers than without")
+    check_no_global_rng(ctx, "C13.R8")
+    # observers run between the nodes of a step (event deliveries suspend and resume them), so they influence the order
+    # in which nodes complete — what the step reports (applied outputs, the error) must not depend on that order
+    from .c02 import check_step_results_in_ready_order
+
+    check_step_results_in_ready_order(ctx, "C13.R8")
+
     # ---- R4 -----------------------------------------------------------------
     emit_names = {"emit", "emit_async"}
 
